@@ -22,6 +22,7 @@ structure VertsOK (W : World) (comp : Component) (st : WState)
     ∃ vx, comp.vertex? vid = some vx ∧ instOf W.D x vx.typeName = true
   opt : ∀ vid, lookupV vs vid = some none → vid ∈ optionalVertices st.edgesDone
   noneClosed : ∀ e ∈ st.edgesDone, lookupV vs e.fromVid = some none → lookupV vs e.toVid = some none
+  ends : ∀ e ∈ st.edgesDone, e.fromVid ∈ st.recorded ∧ e.toVid ∈ st.recorded
 
 def lookupC (fc : List (Eid × Option Nat)) (e : Eid) : Option (Option Nat) :=
   (fc.find? (·.1 == e)).map (·.2)
@@ -76,7 +77,7 @@ theorem lookupC_isSome {fc : List (Eid × Option Nat)} {e : Eid} :
     by_cases h : p.1 = e
     · simp [h]
     · have : (p.1 == e) = false := by simpa using h
-      simp [this, ih, Ne.symm h]
+      simp [this, Ne.symm h]
 
 theorem lookupC_of_mem {fc : List (Eid × Option Nat)} {e : Eid} (h : e ∈ fc.map (·.1)) :
     ∃ a, lookupC fc e = some a := by
